@@ -63,7 +63,35 @@ pub fn reference_groups(ops: &[DiffOp], n: usize) -> Vec<Vec<DiffOp>> {
     groups
 }
 
+/// zero-length Equal ops (the pinned code leaves them at group edges for n = 0) are tolerated, but
+/// they must sit where the neighbouring op of their group starts / ends on the side(s) that op consumes
+fn empty_equals_in_place(groups: &[Vec<DiffOp>]) -> Result<(), String> {
+    for g in groups {
+        for (i, op) in g.iter().enumerate() {
+            if let DiffOp::Equal { old_index, new_index, len: 0 } = *op {
+                if let Some(next) = g.get(i + 1) {
+                    let (_, o, nn) = next.as_tag_tuple();
+                    let old_ok = matches!(next, DiffOp::Insert { .. }) || o.start == old_index;
+                    let new_ok = matches!(next, DiffOp::Delete { .. }) || nn.start == new_index;
+                    if !old_ok || !new_ok {
+                        return Err(format!("group {:?}: the zero-length {:?} does not sit where the following op starts", g, op));
+                    }
+                } else if i > 0 {
+                    let (_, o, nn) = g[i - 1].as_tag_tuple();
+                    let old_ok = matches!(g[i - 1], DiffOp::Insert { .. }) || o.end == old_index;
+                    let new_ok = matches!(g[i - 1], DiffOp::Delete { .. }) || nn.end == new_index;
+                    if !old_ok || !new_ok {
+                        return Err(format!("group {:?}: the zero-length {:?} does not sit where the preceding op ends", g, op));
+                    }
+                }
+            }
+        }
+    }
+    Ok(())
+}
+
 pub fn judge_groups(ops: &[DiffOp], n: usize, groups: &[Vec<DiffOp>]) -> Result<(), String> {
+    empty_equals_in_place(groups)?;
     // every non-Equal op exactly once, unchanged, in order
     let flat: Vec<DiffOp> = groups.iter().flatten().filter(|o| !is_eq(o)).cloned().collect();
     let want: Vec<DiffOp> = ops.iter().filter(|o| !is_eq(o)).cloned().collect();
